@@ -14,7 +14,7 @@ def _run(cmd, inp=None, timeout=600):
 
 def match_known(pid, v, known):
     for k in known:
-        if k.get('property') != pid:
+        if pid not in k.get('property', '').split(','):
             continue
         if k.get('engine') and k['engine'] != v.get('engine'):
             continue
@@ -42,7 +42,8 @@ def parse_fail(line):
     if op in ('op_hottest', 'op_coldest', 'op_size', 'op_wsize'):
         cls = 'C05'
     return {'script': m.group(1), 'line': int(m.group(2)), 'class': cls, 'op': op, 'dead': int(m.group(5)),
-            'nested': int(m.group(6)), 'k1risk': int(m.group(7)), 'msg': m.group(8), 'at': m.group(9), 'engine': 'seq'}
+            'nested': int(m.group(6)), 'k1risk': int(m.group(7)), 'msg': m.group(8), 'at': m.group(9), 'engine': 'seq',
+            'durwrap': int('remaining lifetime not representable as a duration' in m.group(8))}
 
 
 def seq_judge(transcript):
@@ -163,6 +164,10 @@ def engine_seq(ctx, harness, eng, replay, pr):
         return
     # corpus first
     for sc in sorted(glob.glob(V + '/corpus/seq/*.script')):
+        # a script that reproduces an open known finding names the properties whose checks run it ("# only: C19 C01")
+        only = [l.split()[2:] for l in open(sc).read().splitlines() if l.startswith('# only:')]
+        if only and pid not in only[0]:
+            continue
         tr = seq_run_script(harness, sc)
         fails, summ = seq_judge(tr)
         info['corpus'] += 1
